@@ -1,6 +1,6 @@
 import Lean.Data.Json
 import Mistral.Model.Ctx
-import Mistral.Lemmas.Hist
+import Mistral.Lemmas.HistDel
 open Lean Mistral Mistral.Ctx Mistral.Hist
 namespace Mistral.Drv.Ctx
 
@@ -66,6 +66,15 @@ def handle (fn : String) (a : Json) : Option (Except String Json) :=
       let k0 ← a.getObjValAs? String "var"
       let rest ← a.getObjValAs? (Array String) "rest"
       pure (Json.bool (decide (∀ t ∈ ts, StablePub k0 rest.toList t.pub)))
+  | "ctx.stable2" => some do
+      -- the decidable hypotheses of the weaker causal theorems (Props/C05Drop): spine-stable republication
+      -- (the leaf may be dropped) and DropsLow (a dropping task has seen at most one generation of the leaf)
+      let tsJ ← a.getObjValAs? (Array Json) "tasks"
+      let ts ← tsJ.toList.mapM taskOfJson
+      let k0 ← a.getObjValAs? String "var"
+      let rest ← a.getObjValAs? (Array String) "rest"
+      pure (Json.mkObj [("spine", Json.bool (decide (∀ t ∈ ts, StablePub2 k0 rest.toList t.pub))),
+                        ("dropsLow", Json.bool (decide (DropsLow k0 rest.toList ts)))])
   | "ctx.outbound" => some do
       let c ← ctxOfJson (← a.getObjVal? "in")
       let p ← dictOfJson (← a.getObjVal? "published")
